@@ -36,14 +36,10 @@ def run(ctx):
     if f:
         ren = ctx.find_calls(f, r"^ident_case::RenameRule::apply_to_")
         ctx.ob("C09.G.variant-rule-callee", f.key, "rename call", [mir.callee_of(t) for _, t in ren] == ["ident_case::RenameRule::apply_to_variant"], "%s" % [mir.callee_of(t) for _, t in ren])
-        for blk, i, st in ctx.find_field_assigns(f, "attr_name", 1):
-            ctx.requires("C09.G.explicit-name-wins", f, blk, "self.attr_name = Some(rule(ident))", [r"is_some\(self\.attr_name\)=False"])
-            e = ctx.expr(f, st["r"])
-            ctx.ob("C09.G.variant-name-value", f.key, "value", "apply_to_variant(a2.rename_rule, <T as alloc::string::ToString>::to_string(self.ident))" in e, e[:200])
-        for blk, i, st in ctx.find_field_assigns(f, "allow_unknown_fields", 1):
-            ctx.requires("C09.G.unknown-fields-inherited", f, blk, "self.allow_unknown_fields = Some(parent…)", [r"is_some\(self\.allow_unknown_fields\)=False"])
-            e = ctx.expr(f, st["r"])
-            ctx.ob("C09.G.unknown-fields-value", f.key, "value", e == "core::option::Option::Some{unwrap_or_default(a2.allow_unknown_fields)}", e)
+        common.inherit_when_absent(ctx, "C09.G.explicit-name-wins", "C09.G.variant-name-value", f, "attr_name",
+                                   r"^core::option::Option::Some\{ident_case::RenameRule::apply_to_variant\(a2\.rename_rule, <T as alloc::string::ToString>::to_string\(self\.ident\)\)\}$")
+        common.inherit_when_absent(ctx, "C09.G.unknown-fields-inherited", "C09.G.unknown-fields-value", f, "allow_unknown_fields",
+                                   r"^core::option::Option::Some\{unwrap_or_default\(a2\.allow_unknown_fields\)\}$")
     # the bare-word variant: word = Some(true) and not skipped
     f = ctx.fn("darling_core::options::from_meta::FromMetaOptions::from_word")
     if f:
@@ -81,27 +77,28 @@ def run(ctx):
         f = ctx.fn(common.TOK % name)
         if not f:
             continue
-        T = tpl.Templates(f)
         n = 0
-        for tk in T.events:
-            if tk.stream is None or tk.stream <= f.arg_count and tk.kind != "append":
-                pass
-            n += 1
-            pcs = ctx.pc_strs(f, tk.blk)
-            ok = bool(pcs) and all(ctx._sat(d, r"self\.0\.skip=False") for d in pcs)
-            if not ok:
-                ctx.ob("C09.G.skipped-variant-emits-nothing", f.key, "token %s" % tk, False, "emitted under %s" % [sorted(d) for d in pcs])
-        ctx.ob("C09.G.skipped-variant-emits-nothing", f.key, "all %d template events" % n, n > 10, "every template event of the arm generator is guarded by skip = false")
-        # arm shapes per style
         shapes = {}
-        for s in T.by_stream:
-            if T.by_stream[s][0].kind == "append":
-                continue
-            txt = T.text(s)
-            if not txt.startswith("⟨str⟩ =>"):
-                continue
-            pcs = ctx.pc_strs(f, T.by_stream[s][0].blk)
-            shapes[txt] = pcs
+        # the arm generator and the private helpers it may have been cut into (a helper with one
+        # call site stands under the conditions of that call)
+        for g in ctx.generator_group(f):
+            T = tpl.Templates(g)
+            for tk in T.events:
+                n += 1
+                pcs = ctx.pc_strs(g, tk.blk)
+                ok = bool(pcs) and all(ctx._sat(d, r"self\.0\.skip=False") for d in pcs)
+                if not ok:
+                    ctx.ob("C09.G.skipped-variant-emits-nothing", g.key, "token %s" % tk, False, "emitted under %s" % [sorted(d) for d in pcs])
+            # arm shapes per style
+            for s in T.by_stream:
+                if T.by_stream[s][0].kind == "append":
+                    continue
+                txt = T.text(s)
+                if not txt.startswith("⟨str⟩ =>"):
+                    continue
+                pcs = ctx.pc_strs(g, T.by_stream[s][0].blk)
+                shapes[txt] = pcs
+        ctx.ob("C09.G.skipped-variant-emits-nothing", f.key, "all %d template events" % n, n > 10, "every template event of the arm generator is guarded by skip = false")
         for txt, pcs in shapes.items():
             kind = None
             if re.search(r"=> (\{ if let :: darling :: export :: syn :: Meta :: Path \( _ \) = \* __nested \{ )?:: darling :: export :: Ok \( ⟨proc_macro2::Ident⟩ :: ⟨proc_macro2::Ident⟩ \)", txt):
@@ -127,9 +124,9 @@ def run(ctx):
                 ctx.ob("C09.H.parse-before-accumulator", f.key, "struct arm", ok, "the `?` on the variant's own list must precede the accumulator declaration: %s" % txt[:300])
                 ok = bool(re.search(r"if let :: darling :: export :: syn :: Meta :: List \( ref __data \) = \* __nested \{", txt)) and 'unsupported_format ( "non-list" )' in txt
                 ctx.ob("C09.H.struct-arm-needs-list", f.key, "struct arm", ok, txt[:200])
-            wl = ctx.find_calls(f, r"ErrorCheck::<'a>::with_location$|ErrorCheck::<'_>::with_location$|ErrorCheck.*::with_location$")
-            ok = len(wl) == 1 and "self.0.name_in_attr" in ctx.expr(f, wl[0][1]["args"][0])
-            ctx.ob("C09.G.struct-arm-located", f.key, "ErrorCheck::with_location(name_in_attr)", ok, "%s" % [ctx.expr(f, t["args"][0])[:120] for _, t in wl])
+            wl = [(g, t) for g in ctx.generator_group(f) for _, t in ctx.find_calls(g, r"ErrorCheck::<'a>::with_location$|ErrorCheck::<'_>::with_location$|ErrorCheck.*::with_location$")]
+            ok = len(wl) == 1 and "self.0.name_in_attr" in ctx.expr(wl[0][0], wl[0][1]["args"][0])
+            ctx.ob("C09.G.struct-arm-located", f.key, "ErrorCheck::with_location(name_in_attr)", ok, "%s" % [ctx.expr(g, t["args"][0])[:120] for g, t in wl])
             nt = [t for t in shapes if "FromMeta :: from_meta ( __nested )" in t]
             ok = bool(nt) and ". map_err ( | e | e . at ( ⟨str⟩ ) ) ?" in nt[0]
             ctx.ob("C09.H.newtype-arm-located", f.key, "newtype arm adds .at(name)", ok, (nt[0] if nt else "")[:260])
